@@ -15,7 +15,8 @@ PID = "C19"
 RULE = ("cases = (scenario X, scenario Y, history of A on X, schedule of foreign operations). A runs its history alone (per-step seeds) "
         "-> reference trajectory (observations, rewards, flags, info, state tensors, get_readable() of state and last observation, "
         "render_obs / render_state of the arrays). A fresh A' then runs the same history while the schedule interleaves: construct "
-        "B on Y, reset B, step B (own seeds), drop B, construct a third environment (on X, Y or a shipped scenario). After EVERY "
+        "B on Y, reset B, step B (own seeds), drop B, construct a third environment (on X, Y or a shipped scenario), copy A' "
+        "(copy.deepcopy / pickle round trip) and step the copy. After EVERY "
         "foreign operation A' is re-read and must equal the reference; every step of A' must equal the reference step. Pairs: Y == X, "
         "same layout / different content, different layouts. Also make_benchmark_scenario(name, seed) before/after calls with other "
         "seeds. In a quarter of the cases the actions are Action objects built with the public constructors, one object per action "
@@ -207,6 +208,29 @@ def run_case(case, rep, record=True):
                             B[0].step(B[0].action_space.sample())
                 elif name == "drop_B":
                     B[0] = None
+                elif name == "copy_A":
+                    # a copy of A' (copy.deepcopy / a pickle round trip) is one more environment: stepping it
+                    # must not change A'.  Whether an environment CAN be copied is not C19's business.
+                    import copy
+                    import pickle
+                    try:
+                        twin = copy.deepcopy(envA) if fop[1] == "deepcopy" else pickle.loads(pickle.dumps(envA))
+                    except Exception:
+                        if record:
+                            rep.count("copy-not-supported:" + fop[1])
+                        continue
+                    for j in range(fop[2]):
+                        np.random.seed(fop[3] + j)
+                        if hasattr(twin.action_space, "n"):
+                            twin.step(int((fop[3] * 7919 + j * 104729) % twin.action_space.n))
+                        else:
+                            twin.action_space.seed(fop[3] + j)
+                            twin.step(twin.action_space.sample())
+                    if j % 2:
+                        twin.reset()
+                    third.append(twin)
+                    third[:] = third[-2:]
+                    name = "copy_A:" + fop[1]
                 elif name == "third":
                     which = fop[1]
                     tm = dict(fop[2]) if len(fop) > 2 else {}
@@ -437,6 +461,7 @@ FOREIGN = st.one_of(
     st.tuples(st.just("reset_B")),
     st.tuples(st.just("step_B"), st.integers(1, 4), st.integers(0, 10000)),
     st.tuples(st.just("drop_B")),
+    st.tuples(st.just("copy_A"), st.sampled_from(["deepcopy", "pickle"]), st.integers(1, 4), st.integers(0, 10000)),
     st.tuples(st.just("third"), st.sampled_from(["x", "x", "y", "tiny", "small", "tiny-small"]),
               st.fixed_dictionaries({"fully_obs": st.booleans(), "flat_actions": st.booleans(), "flat_obs": st.booleans()})),
 )
